@@ -187,7 +187,8 @@ func c17Judge(rep *c17Report, whole []byte, p int) string {
 	if rep.HasLine {
 		got = rep.Line
 	}
-	T := string(whole[start:end])
+	// a tab has no width of its own on a terminal: the command is expected to show it as one space
+	T := strings.ReplaceAll(string(whole[start:end]), "\t", " ")
 	col := p - start
 	if got != line {
 		return fmt.Sprintf("line %d reported (quoted %q); the offending byte (offset %d) is byte %d of line %d: %q",
